@@ -44,12 +44,20 @@ VisitArrayUnroll ==
     /\ UNCHANGED <<sch, unroll, bitstart, encoding, pc, cur, calls, rets>>
 
 VisitLeaf ==
-    /\ pc = "run" /\ work # <<>> /\ ~IsComposite(work[1], unroll)
+    /\ pc = "run" /\ work # <<>> /\ ~IsComposite(work[1], unroll) /\ Measurable(work[1].t)
     /\ LET lf == Leaf(sch, cur, work[1], bitstart) IN
        /\ encoding' = Append(encoding, lf)
        /\ bitstart' = bitstart + lf.len
     /\ work' = Tail(work)
     /\ UNCHANGED <<sch, unroll, pc, cur, calls, rets>>
+
+(* the width of the next leaf cannot be computed: generate() raises and leaves the object as it is - leaves laid out so far
+   stay in `encoding`, the cursor stays where it was.  A refused call is recorded as the empty list. *)
+Refuse ==
+    /\ pc = "run" /\ work # <<>> /\ ~IsComposite(work[1], unroll) /\ ~Measurable(work[1].t)
+    /\ pc' = "idle"
+    /\ rets' = Append(rets, <<>>)
+    /\ UNCHANGED <<sch, unroll, bitstart, encoding, work, cur, calls>>
 
 GenerateEnd ==
     /\ pc = "run" /\ work = <<>>
@@ -59,11 +67,14 @@ GenerateEnd ==
 
 LNext(Impls, maxCalls) ==
     \/ \E i \in Impls : Len(calls) < maxCalls /\ GenerateBegin(i)
-    \/ VisitStruct \/ VisitArrayUnroll \/ VisitLeaf \/ GenerateEnd
+    \/ VisitStruct \/ VisitArrayUnroll \/ VisitLeaf \/ Refuse \/ GenerateEnd
 
 (* -------------------------------------------------------------- invariants *)
-Returned == pc = "idle" /\ rets # <<>>
+Answered == pc = "idle" /\ rets # <<>>
 Last     == rets[Len(rets)]
+Returned == Answered /\ Last # <<>>            \* the last call returned a layout (a layout is never empty)
+(* a call is refused exactly when its binding cannot be laid out - whatever happened on this object before *)
+RefusedIffUnlayable == Answered => ((Last = <<>>) <=> ~Layable(sch, cur, unroll))
 (* the layout just returned equals the big-step layout of ITS binding, whatever was generated before *)
 HistoryIndependent == Returned => Last = LayoutOf(sch, cur, unroll)
 InvStartsAtZero    == Returned => StartsAtZero(Last)
